@@ -163,6 +163,27 @@ func x2Configs(prop, tier string) []*X2Config {
 		res = append(res, &X2Config{Name: "C16/delay-removed", Cfgs: []PipeCfg{d10, base}, Depth: depth(6, 7), Reload: true, Symmetry: true, AdvSteps: adv, Drain: true, Props: props("C16", "C02")})
 		res = append(res, &X2Config{Name: "C16/delay-changed", Cfgs: []PipeCfg{d10, d20}, Depth: depth(6, 7), Reload: true, Symmetry: true, AdvSteps: adv, Drain: true, Props: props("C16", "C02")})
 	}
+	if prop == "C12" {
+		res = c12Configs(tier)
+	}
+	if prop == "C10" {
+		for _, conc := range []int{1, 2} {
+			for _, v := range []struct {
+				n string
+				c PipeCfg
+			}{{"plain", PipeCfg{QL: -1}}, {"replace+delay", PipeCfg{QL: 1, Replace: true, Delay: dly}}} {
+				for _, g := range []struct {
+					n string
+					g map[string][]string
+				}{{"one", graphOne}, {"chain", graphChain}} {
+					pc := v.c
+					pc.Conc = conc
+					pc.Graph = g.g
+					res = append(res, &X2Config{Name: "C10/" + cfgName(pc), Cfgs: []PipeCfg{pc}, Depth: depth(5, 7), Sbad: true, FailOK: true, Cancel: true, Symmetry: false, AdvSteps: adv, Restart: true, Props: props()})
+				}
+			}
+		}
+	}
 	for _, c := range res {
 		_ = fmt.Sprint(c.Name)
 	}
